@@ -143,7 +143,9 @@ class Flow(object):
             pscope = self.scope.parent
             if pscope:
                 snames = pscope.names
-                if isinstance(self.scope, ClassScope):
+                if isinstance(self.scope, (ClassScope, SourceScope)):
+                    # class and module bodies fall back to the outer (builtin)
+                    # name while their own binding has not been executed yet
                     return MergedDict(snames)
                 else:
                     outer_names = set(snames).difference(self.scope.locals)
